@@ -15,8 +15,11 @@ CHECKS = {
              "Eval(p) says), NoPanic, CleanAtEnd and PrefixStable over the programs of Gen.tla - a generator machine that "
              "types terms by evaluating them against the reference and admits a bounded number of ill-typed joins: "
              "exhaustive construct families (operators, arithmetic, numbers, booleans with short-circuit, tuples/lists/"
-             "selectors/copy/self/in/is, select, calls, map/filter/reduce, format/range/cast/fail/TRACE, module "
-             "definition+instantiation) plus a simulation of the full grammar. Every explored program is replayed: the "
+             "selectors/copy/self/in/is, select, calls, map/filter/reduce incl. callbacks that answer NULL or fail late, "
+             "format/range/cast/fail/TRACE, casts of selected elements, regex operators on literal patterns, module "
+             "definition+instantiation, function bodies met at a later call, annotated lets `let x :: constraint = v` "
+             "with ranges, exact alternatives and examples) plus a simulation of the full grammar; the constructs each "
+             "family really produced are measured and an enabled but never produced construct is a tool error. Every explored program is replayed: the "
              "rendered text must parse back to the generated AST, FileBuilder::eval_string must give the predicted "
              "success/failure and values, AST::translate must emit the predicted op sequence op for op with the "
              "predicted statement positions. impl->spec: a sample of executions is recorded by the `verif` hooks (one "
